@@ -415,7 +415,7 @@ fn main() {
             }
         }
     }
-    let nr = if san { 0 } else { ctx.budget(2000, 40000) };
+    let nr = if san { 0 } else { ctx.budget(10000, 200000) };
     for _ in 0..nr {
         if let Some(mut rng) = ctx.random_case() {
             let a = rng.range_i64(-1000, 1000);
